@@ -24,6 +24,7 @@ RULE += (' Also: iter(callable, sentinel) asked again after its end stays ended 
 RULE += (' Also: iter(callable, None) over values that consider themselves equal to None.')
 RULE += (' Also: zip(strict=<true object that is not True>) is strict.')
 RULE += (' Also: starmap argument records that offer both iteration protocols are unpacked synchronously.')
+RULE += (' Also: lazily produced sources that are collections.abc.Sequence instances (asked for ONE iterator, never indexed).')
 ASSUMPTIONS = ["the stdlib of the running interpreter (3.12) is the reference",
                "documented deviations encoded: accumulate([]) without initial raises TypeError; tee handle indexable",
                "batched(strict=True) reference = itertools.batched + ValueError on a short batch (3.13 semantics)"]
@@ -31,7 +32,7 @@ EXHAUSTIVE_SUBSPACES = 'every islice (start,stop,step) tuple over start in {None
 EXHAUSTIVE = {"quick": False, "thorough": False}
 
 N_RANDOM = {"quick": 150000, "thorough": 8000000}
-FLAVS = ["list", "list", "async_gen", "async_class", "sync_iter", "tuple", "getitem_seq", "sync_gen", "async_class_bare", "async_iterable", "sync_iterable", "sync_mapping"]
+FLAVS = ["list", "list", "async_gen", "async_class", "sync_iter", "tuple", "getitem_seq", "sync_gen", "async_class_bare", "async_iterable", "sync_iterable", "sync_mapping", "sync_sequence"]
 
 
 def cases(tier, seed, shard, nshards):
